@@ -21,10 +21,10 @@ L = "eqsig/loader.py"
 G = "eqsig/fns/generic.py"
 SD = "eqsig/sdof.py"
 VARIANTS = [
-    X("C06", "C06-t2-2", "concat-no-conj", F, "np.flip(np.conj(pos), axis=0)), dtype=complex) / dt\n    s = np.fft.ifft(a, n=n)\n    npts = int(2 ** (np.log(n) / np.log(2)))\n    s = s[:npts]\n    return s",
-      "np.flip(pos, axis=0)), dtype=complex) / dt\n    s = np.fft.ifft(a, n=n)\n    npts = int(2 ** (np.log(n) / np.log(2)))\n    s = s[:npts]\n    return s", "R-INV-DT"),
-    X("C06", "C06-t2-2", "concat-order", F, "(gap, pos, gap, np.flip(np.conj(pos), axis=0)), dtype=complex) / dt\n    s = np.fft.ifft(a, n=n)\n    npts = int(2 ** (np.log(n) / np.log(2)))\n    s = s[:npts]\n    return s",
-      "(gap, np.flip(np.conj(pos), axis=0), gap, pos), dtype=complex) / dt\n    s = np.fft.ifft(a, n=n)\n    npts = int(2 ** (np.log(n) / np.log(2)))\n    s = s[:npts]\n    return s", "R-INV-DT"),
+    X("C06", "C06-t2-2", "concat-no-conj", F, "np.flip(np.conj(pos), axis=0)), dtype=complex) / dt\n    s = np.fft.ifft(a, n=n)\n    npts = n  # all n points (int(2 ** (np.log(n) / np.log(2))) rounds down to n - 1 for some n, e.g. 14)\n    s = s[:npts]\n    return s",
+      "np.flip(pos, axis=0)), dtype=complex) / dt\n    s = np.fft.ifft(a, n=n)\n    npts = n  # all n points (int(2 ** (np.log(n) / np.log(2))) rounds down to n - 1 for some n, e.g. 14)\n    s = s[:npts]\n    return s", "R-INV-DT"),
+    X("C06", "C06-t2-2", "concat-order", F, "(gap, pos, gap, np.flip(np.conj(pos), axis=0)), dtype=complex) / dt\n    s = np.fft.ifft(a, n=n)\n    npts = n  # all n points (int(2 ** (np.log(n) / np.log(2))) rounds down to n - 1 for some n, e.g. 14)\n    s = s[:npts]\n    return s",
+      "(gap, np.flip(np.conj(pos), axis=0), gap, pos), dtype=complex) / dt\n    s = np.fft.ifft(a, n=n)\n    npts = n  # all n points (int(2 ** (np.log(n) / np.log(2))) rounds down to n - 1 for some n, e.g. 14)\n    s = s[:npts]\n    return s", "R-INV-DT"),
     X("C15", "C15-t2-2", "concat-no-conj", ST, "np.conj(neg_half)[::-1]", "neg_half[::-1]", "R-ST-LIN"),
     X("C15", "C15-t2-2", "concat-halves-swapped", ST, "(no_comp, np.conj(neg_half)[::-1], no_comp, neg_half)", "(no_comp, neg_half, no_comp, np.conj(neg_half)[::-1])", "R-ST-LIN"),
     X("C15", "C15-t2-3", "closed-form-off-by-one", ST, "    max_f = (points - indy_max) / (2 * points * asig.dt)\n", "    max_f = (points - indy_max - 1) / (2 * points * asig.dt)\n", "R-ST-AXIS"),
